@@ -333,6 +333,57 @@ def backend_backpressure_scenario(sid, nbig=12, bigsize=16000, rounds=4, chunk=4
     return {"id": sid, "role": "", "steps": steps}
 
 
+def backend_large_request_scenario(sid, prefill=20000, big=80000, pause=True, tail=3):
+    """A request larger than the 64 KB static part of the proxy's outbound buffer, followed in the same write by small
+    requests for the same node - with that node not reading and part of an earlier request still waiting in the static
+    part (pause), or with a node that is merely slower than the proxy: the large request must not be overtaken."""
+    req = lambda args, sl=("A",): {"k": "cmd", "slots": list(sl), "args": list(args), "dups": [-1] * len(sl)}
+    step = lambda stim, settle=True: {"stim": stim, "settle": settle, "noIter": False}
+    steps = []
+    n = 0
+    if pause:
+        steps.append(step([_st(op="npause", n="n1")]))
+    if prefill:
+        steps.append(step([_st(op="send", c="c1", reqs=[req(["SET", "@0", "rnd:%d:%d" % (prefill, 700)])])]))
+        n += 1
+    burst = [req(["SET", "@0", "rnd:%d:%d" % (big, 701)])]
+    for k in range(tail):
+        burst += [req(["GET", "@0"]), req(["SET", "@0", "rnd:%d:%d" % (300 + 900 * k, 702 + k)])]
+    steps.append(step([_st(op="send", c="c1", reqs=burst)]))
+    n += len(burst)
+    steps.append(step([]))
+    if pause:
+        for r in range(4):
+            steps.append(step([_st(op="nreadsome", n="n1", count=30000)]))
+            steps.append(step([_st(op="send", c="c1", reqs=[req(["GET", "@0"])])]))
+            n += 1
+        steps.append(step([_st(op="nresume", n="n1")]))
+    for _ in range(4 + big // 200000):
+        steps.append(step([_st(op="answer", n="n1", kind="ok", count=n + 2)]))
+    return {"id": sid, "role": "", "steps": steps}
+
+
+def redirected_large_request_scenario(sid, size=100000, kind="moved", to="n2", twice=False):
+    """A request far larger than the proxy's buffers' static parts is answered with a redirect to a node the proxy knows:
+    what is sent to that node is the whole request again, byte for byte, and the client gets that node's answer."""
+    req = lambda args, sl=("A",): {"k": "cmd", "slots": list(sl), "args": list(args), "dups": [-1] * len(sl)}
+    step = lambda stim, settle=True: {"stim": stim, "settle": settle, "noIter": False}
+    steps = [step([_st(op="send", c="c1", reqs=[req(["GET", "@0"]), req(["SET", "@0", "rnd:%d:%d" % (size, 900)]), req(["GET", "@0"])])]), step([]),
+             step([_st(op="answer", n="n1", kind="ok"), _st(op="answer", n="n1", kind=kind, to=to), _st(op="answer", n="n1", kind="ok")])]
+    steps += [step([]) for _ in range(2 + size // 60000)]
+    if twice:
+        other = "n3" if to == "n2" else "n2"
+        steps.append(step([_st(op="answer", n=to, kind="ask" if kind == "moved" else "moved", to=other)]))
+        steps += [step([]) for _ in range(2 + size // 60000)]
+        to = other
+    steps.append(step([_st(op="send", c="c2", reqs=[req(["GET", "@0"], ("B",)), req(["GET", "@0"], ("C",))])]))
+    for _ in range(3):
+        steps.append(step([_st(op="answer", n=n, kind="ok", count=4) for n in ("n1", "n2", "n3")]))
+    steps.append(step([_st(op="send", c="c1", reqs=[{"k": "ping", "slots": [], "args": [], "dups": []}])]))
+    steps += [step([]) for _ in range(2)]
+    return {"id": sid, "role": "", "steps": steps}
+
+
 def slow_reader_interleaved_scenario(sid, bigsize=300000, rounds=6, chunk=50000):
     """A client that reads a large reply in parts while further replies for it keep arriving."""
     req = lambda args, sl=("A",): {"k": "cmd", "slots": list(sl), "args": list(args), "dups": [-1] * len(sl)}
